@@ -253,9 +253,46 @@ func vFireRtx(a *Association, t *rtxTimer) bool {
 	return false
 }
 
+// vFireRack / vFirePTO let an armed RACK or PTO deadline pass: exactly what timerLoop does
+// when its runtime timer fires (snapshot and clear the deadline under timerMu, then run the
+// callback without timerMu).
+func vFireRack(a *Association) bool {
+	if vIsShut(a) {
+		return false
+	}
+	a.timerMu.Lock()
+	due := !a.rackDeadline.IsZero()
+	if due {
+		a.rackDeadline = time.Time{}
+	}
+	a.timerMu.Unlock()
+	if due {
+		a.onRackTimeout()
+	}
+	return due
+}
+
+func vFirePTO(a *Association) bool {
+	if vIsShut(a) {
+		return false
+	}
+	a.timerMu.Lock()
+	due := !a.ptoDeadline.IsZero()
+	if due {
+		a.ptoDeadline = time.Time{}
+	}
+	a.timerMu.Unlock()
+	if due {
+		a.onPTOTimer()
+	}
+	return due
+}
+
 // vFireAll expires every armed protocol timer of a once.
 func vFireAll(a *Association) {
 	vFireAck(a)
+	vFireRack(a)
+	vFirePTO(a)
 	vFireRtx(a, a.t3RTX)
 	vFireRtx(a, a.t2Shutdown)
 	vFireRtx(a, a.tReconfig)
